@@ -212,6 +212,21 @@ Definition decode_binned (E : Q -> Q) (occ : list Q) (tc : list (list Q)) (centr
   map (fun tr => let p := posterior E (bin_size_s b) occ tc (snd tr) in (fst tr, (p, decoded centres p)))
       (filter (fun tr => mem (fst tr) ep) rows).
 
+(* decode_2d: the feature bins are the cells (i, j) of the nx x ny grid flattened row-major (tc.reshape);
+   the posterior ARRAY has one row per row of the pre-binned frame restricted to ep (count = newgroup), and the
+   decoded pair is the (x, y) centre at np.unravel_index(argmax, (nx, ny)) *)
+Definition unravel (ny k : nat) : nat * nat := ((k / ny)%nat, (k mod ny)%nat).
+Definition inside_rows (rows : list (Z * list nat)) (ep : iset) : list (Z * list nat) :=
+  filter (fun tr => mem (fst tr) ep) rows.
+Definition decode2d_post (E : Q -> Q) (occ : list Q) (tc : list (list Q))
+           (rows : list (Z * list nat)) (ep : iset) (b : Z) : list (list Q) :=
+  map (fun tr => posterior E (bin_size_s b) occ tc (snd tr)) (inside_rows rows ep).
+Definition decode2d_decoded (E : Q -> Q) (occ : list Q) (tc : list (list Q)) (cx cy : list Q)
+           (rows : list (Z * list nat)) (ep : iset) (b : Z) : list (Z * (Q * Q)) :=
+  map (fun tr => let ij := unravel (length cy) (argmax (posterior E (bin_size_s b) occ tc (snd tr))) in
+                 (fst tr, (nth (fst ij) cx 0, nth (snd ij) cy 0)))
+      (inside_rows rows ep).
+
 Local Open Scope Z_scope.
 (* occupancy prior of decode_1d: the bin edges are rebuilt from the bin centres
    (bins_i = c_i - (c_{i+1}-c_i)/2, the last two by extrapolation).  In: doubled centres; out: edges * 4.
